@@ -8,6 +8,8 @@ the text, read by the reference reader AND by the library's own parser, must den
 Bounded-exhaustive parts are enumerated deterministically and split over the shards; the rest is Hypothesis.
 """
 import itertools, math, re
+from decimal import Decimal
+from fractions import Fraction
 from hypothesis import strategies as st
 
 from vf import findings, hyp
@@ -21,17 +23,26 @@ RULE = ('cases = decode: (dialect, context, text of one string literal / identif
         'the reference reader and by parse_sql gives the value back); non-trivial = the statement is accepted (decode) '
         'or printed (encode) and the text/value contains a quote, back-quote, backslash, dot, blank, newline or '
         'non-ASCII character, or is empty, digit-first, a keyword, or a number with sign, leading zero, >= 16 '
-        'significant digits or an exponent repr; distinct by (direction, kind, dialect, statement text / value)')
+        'significant digits or an exponent repr; distinct by (direction, kind, dialect, statement text / value); also '
+        'decode of a text that holds its own delimiter doubled ("a""b", `a``b`, mysql/sqlite \'a\'\'b\') in every literal / '
+        'name context, judged by the reader _dbl_value of this module (non-trivial = accepted), every keyword followed by '
+        '`$` as a plain name, and encode of Decimal values (exact denotation of the printed token)')
 ASSUMPTIONS = [
     'reference denotation = my reading of the token shapes (regexes) the three lexers declare; a backslash pairs with the '
     'next character in the mindsdb dialect, so \\\\ denotes one backslash; every other \\c except \\\' \\" is left open '
     '(admits `\\c`, `c` and MySQL\'s control character)',
     'mysql/sqlite dialect literals have no escape form: raw content',
     'decimals denote the nearest IEEE double; -N may be held as Constant(-N) or as unary minus over Constant(N)',
-    'an integer identifier part (mindsdb `a.007`) admits the digits as written or without leading zeros',
+    'an integer identifier part (mindsdb `a.007`) denotes the digits as written (a name part, not a number: `a.007` and '
+    'a.`007` name the same column)',
+    'inside a literal or quoted name delimited by q (one of \' " `) the doubled delimiter qq denotes one q (standard SQL; '
+    'the property names doubled quotes); such texts are judged by the reader of this module (_dbl_value), in every '
+    'dialect, and only when the statement is accepted',
+    'a plain word is the longest run of [A-Za-z0-9_$] (the ID shape): a keyword followed by `$` is a part of a longer name',
+    'a decimal beyond the double range has no nearest double: only an exact holder (int / Decimal) is admitted',
+    'Constant(Decimal) must print to a number token that denotes exactly that decimal',
     'a statement the parser rejects is outside the property (counted, not failed)',
-    'encode: values with no spelling in the token shapes are excluded and counted (identifier part empty or containing '
-    'a back-quote; variable name not starting with [A-Za-z_.$] or using all three quotes; inf/nan; a single quote in a '
+    'encode: values with no spelling in the token shapes are excluded and counted (identifier part empty; variable name not starting with [A-Za-z_.$] or using all three quotes; inf/nan; a single quote in a '
     'string for the mysql/sqlite dialects)',
     'an unquoted printed keyword counts as denoting the name iff the library parser takes it back as that name',
 ]
@@ -44,7 +55,10 @@ FLOORS = {
               'part:dq': 1500, 'part:bq': 3500, 'part:quoted-dot': 1000, 'part:keyword-word': 7000,
               'part:digit-first': 600, 'part:uppercase': 8000, 'blank-around-dot': 4000, 'num:>=16-digits': 100,
               'num:int>2^53': 50, 'num:negative': 300, 'epart:kw': 1500, 'v:backslash-unsafe': 90, 'v:non-ascii': 50,
-              'erepr:exponent': 15, 'dialect:mysql': 4000, 'dialect:sqlite': 3000},
+              'erepr:exponent': 15, 'dialect:mysql': 4000, 'dialect:sqlite': 3000,
+              # added with E7 / E8 and the Decimal grid (mostly enumerated: <= 1/3 of the minimum over 4 seeds at 8 shards)
+              'decode:dbl': 1500, 'dbl-accepted:dq': 60, 'dbl-accepted:bq': 40, 'part:kw-then-dollar': 250, 'part:int-leading-zero': 30,
+              'num:beyond-double': 30, 'encode:dec': 50, 'epart:p:backquote': 400},
     'thorough': {'__nontrivial__': 240000, 'decode:str': 150000, 'decode:path': 55000, 'decode:num': 2000,
                  'decode:var': 2300, 'encode:str': 20000, 'encode:path': 5000, 'encode:num': 800, 'encode:var': 700,
                  'exact': 120000, 'open-escape': 30000, "unit:''": 23000, 'unit:\\\\': 28000, 'empty-string': 180,
@@ -52,7 +66,10 @@ FLOORS = {
                  'part:keyword-word': 9000, 'part:digit-first': 11000, 'part:uppercase': 26000,
                  'blank-around-dot': 28000, 'num:>=16-digits': 350, 'num:int>2^53': 80, 'num:negative': 950,
                  'epart:kw': 3800, 'v:backslash-unsafe': 5000, 'v:non-ascii': 1200, 'erepr:exponent': 250,
-                 'dialect:mysql': 60000, 'dialect:sqlite': 59000},
+                 'dialect:mysql': 60000, 'dialect:sqlite': 59000,
+                 # the quick-tier floors (the thorough spaces contain the quick ones)
+                 'decode:dbl': 1500, 'dbl-accepted:dq': 60, 'dbl-accepted:bq': 40, 'part:kw-then-dollar': 250, 'part:int-leading-zero': 30,
+                 'num:beyond-double': 30, 'encode:dec': 50, 'epart:p:backquote': 400},
 }
 N = {'quick': 1200, 'thorough': 20000}
 
@@ -66,8 +83,8 @@ RAW_DQ_UNITS = ['a', 'n', ' ', "'", '\\', '%', '`', '\n', '--']                 
 ENC_ALPHA = ['a', "'", '"', '\\', ' ', '%', '\n', '`']                                 # values (encode)
 DQI_UNITS = ['a', '.', ' ', '`', '\\"', "'", '\\\\', '1']                              # mindsdb "..." as identifier
 BQ_CHARS = ['a', '.', ' ', "'", '"', '\\', '1', '-']                                   # `...` content
-EXH_LEN = {'quick': {'sq': 3, 'dq': 3, 'raw': 3, 'enc': 3, 'dqi': 3, 'bq': 3, 'path': 2, 'epath': 2},
-           'thorough': {'sq': 5, 'dq': 5, 'raw': 5, 'enc': 5, 'dqi': 4, 'bq': 4, 'path': 3, 'epath': 2}}
+EXH_LEN = {'quick': {'sq': 3, 'dq': 3, 'raw': 3, 'enc': 3, 'dqi': 3, 'bq': 3, 'path': 2, 'epath': 2, 'dbl': 3},
+           'thorough': {'sq': 5, 'dq': 5, 'raw': 5, 'enc': 5, 'dqi': 4, 'bq': 4, 'path': 3, 'epath': 2, 'dbl': 4}}
 
 SPECIAL = set('\'"`\\. \t\r\n')
 
@@ -158,15 +175,35 @@ def _number_of(node):
     c = _cls(node)
     if c == 'Constant':
         v = node.value
-        if isinstance(v, bool) or not isinstance(v, (int, float)):
+        if isinstance(v, bool) or not isinstance(v, (int, float, Decimal)):
             return None
         return v
     if c == 'UnaryOperation' and node.op == '-' and len(node.args) == 1 and _cls(node.args[0]) == 'Constant':
         v = node.args[0].value
-        if isinstance(v, bool) or not isinstance(v, (int, float)):
+        if isinstance(v, bool) or not isinstance(v, (int, float, Decimal)):
             return None
         return -v
     return None
+
+
+def _beyond_double(exact):
+    try:
+        float(exact)
+        return False
+    except OverflowError:
+        return True
+
+
+def _same_number(v, kind, exact):
+    """reflex.same_number, plus: an exact holder (Decimal) is admitted when it holds the value exactly, and a decimal
+    beyond the double range (no nearest double exists) is admitted only in an exact holder."""
+    if isinstance(v, Decimal):
+        return v.is_finite() and Fraction(v) == exact
+    if kind == 'int' or isinstance(v, int):
+        return v == exact
+    if _beyond_double(exact):
+        return False
+    return v == float(exact)
 
 
 def _parts_repr(parts):
@@ -334,7 +371,14 @@ def _path_features(d, parts, ref, obs_parts):
             f.append('star')
         elif s == 'w':
             f.append('kw-word' if reflex.keyword_of(v, d) else 'word')
+            if _kw_then_dollar(v, d):
+                f.append('word:keyword-then-dollar')
     return f
+
+
+def _kw_then_dollar(v, d):
+    """The word starts with a keyword spelling directly followed by `$` (status$, view$orders)."""
+    return any(v[i] == '$' and reflex.keyword_of(v[:i], d) for i in range(1, len(v)))
 
 
 def judge_dpath(case, col):
@@ -380,6 +424,10 @@ def judge_dpath(case, col):
             classes.append('part:uppercase')
         if any(sp != '.' for sp in seps[:max(0, len(parts) - 1)]):
             classes.append('blank-around-dot')
+        if any(s == 'w' and _kw_then_dollar(v, d) for s, v in parts):
+            classes.append('part:kw-then-dollar')
+        if any(s == 'int' and v[0] == '0' and len(v) > 1 for s, v in parts):
+            classes.append('part:int-leading-zero')
         node = get(r)
         obs = getattr(node, 'parts', None) if _cls(node) == 'Identifier' else None
         good = obs is not None and len(obs) == len(ref) and all(reflex.part_admits(p, o) for p, o in zip(ref, obs))
@@ -389,6 +437,9 @@ def judge_dpath(case, col):
             shown = _parts_repr(obs) if obs is not None else _cls(node)
             out.append(findings.record('decode-path', 'Identifier.parts', _path_features(d, parts, ref, obs), cfg,
                                        f'path {_short(text)} denotes parts {denoted}; tree holds {shown}', sql))
+        elif any(rp[0] == 'int' and o != rp[1] for rp, o in zip(ref, obs)):
+            out.append(findings.record('decode-path', 'Identifier.parts', ['diff:part-text', 'int-part', 'int:leading-zeros-lost'],
+                                       cfg, f'path {_short(text)} denotes parts {denoted}; tree holds {_parts_repr(obs)}', sql))
     nontrivial = st_ == 'ok' and (len(parts) > 1 or any(s != 'w' for s, _ in parts) or
                                   any(v[:1].isdigit() or reflex.keyword_of(v, d) for s, v in parts if s == 'w'))
     col.case(('dpath', d, sql), nontrivial, classes, {'kind': 'decode-path', 'dialect': d, 'sql': sql, 'denotes': denoted})
@@ -413,6 +464,8 @@ def judge_dnum(case, col):
         return []
     digits = t.replace('.', '')
     classes = ['decode', 'decode:num', 'dialect:' + d, 'num:' + kind, 'ctx:' + ctx]
+    if kind == 'float' and _beyond_double(exact):
+        classes.append('num:beyond-double')           # counted whether accepted or not: a reader may refuse it
     out = []
     if st_ == 'rejected':
         classes.append('rejected')
@@ -429,16 +482,107 @@ def judge_dnum(case, col):
         node = get(r)
         v = _number_of(node)
         feats = ['num:' + kind] + (['neg'] if neg else [])
+        if kind == 'float' and _beyond_double(exact):
+            feats.append('num:beyond-double')
         if v is None:
             out.append(findings.record('decode-shape', 'Constant', feats + ['node:' + _cls(node)], cfg,
                                        f'number {text} read as {_cls(node)} {_short(getattr(node, "value", None))}', sql))
-        elif not reflex.same_number(v, kind, exact):
+        elif not _same_number(v, kind, exact):
+            den = exact if kind == 'int' else ('a decimal beyond the double range' if _beyond_double(exact) else repr(float(exact)))
             out.append(findings.record('decode-value', 'Constant.value', feats, cfg,
-                                       f'number {text} denotes {exact if kind == "int" else float(exact)!r}; tree holds {v!r}', sql))
+                                       f'number {_short(text, 60)} denotes {_short(den, 60)}; tree holds {v!r}', sql))
     nontrivial = st_ == 'ok' and (neg or len(digits.strip('0')) >= 16 or (t[0] == '0' and len(t) > 1) or
                                   (kind == 'float' and t.endswith('0')) or
-                                  (kind == 'float' and 'e' in repr(float(exact))))
+                                  (kind == 'float' and (_beyond_double(exact) or 'e' in repr(float(exact)))))
     col.case(('dnum', d, sql), bool(nontrivial), classes, {'kind': 'decode-number', 'dialect': d, 'sql': sql})
+    return out
+
+
+# ------------------------------------------------------------------------------------------------ decode: doubled delimiters
+
+DBL_UNITS = {"'": ['a', "''", ' ', '"', '.', 'B'], '"': ['a', '""', ' ', "'", '.', 'B'], '`': ['a', '``', ' ', '.', "'", 'B']}
+_QTAG = {"'": 'q:sq', '"': 'q:dq', '`': 'q:bq'}
+
+
+def _dbl_value(units, q):
+    """Reference reading of a text q + units + q whose units are single characters other than q and backslash, or the
+    doubled delimiter qq: qq denotes one q, every other unit itself.  -> value | None (not in that shape)."""
+    out = []
+    for u in units:
+        if u == q + q:
+            out.append(q)
+        elif len(u) == 1 and u != q and u != '\\':
+            out.append(u)
+        else:
+            return None
+    return ''.join(out)
+
+
+def dbl_ctxs(d, q):
+    """Contexts of a doubled-delimiter text: literal positions for '...' and "...", name positions (p:...) for `...`
+    and, where the grammar takes "..." as a name, for "..." in FROM / INSERT INTO."""
+    if q == '`':
+        return ['p:' + c for c in sorted(PATH_CTX)]
+    cs = sorted(LIT_CTX)
+    if q == '"' and d in reflex.DQ_IDENT:
+        cs += ['p:from', 'p:insert']
+    return cs
+
+
+def judge_ddbl(case, col):
+    d, q, units, ctx = case['d'], case['q'], case['u'], case['ctx']
+    value = _dbl_value(units, q)
+    if value is None or q + q not in units or ctx not in dbl_ctxs(d, q):
+        raise AssertionError(f'ddbl case outside the generated domain: {case!r}')
+    if d in reflex.ESCAPING and q == "'":
+        col.excluded("doubled quote in a mindsdb '...' literal: judged by decode-string")
+        return []
+    lit = q + ''.join(units) + q
+    name_pos = ctx.startswith('p:')
+    tmpl, get = PATH_CTX[ctx[2:]] if name_pos else LIT_CTX[ctx]
+    sql = tmpl.format(x=lit)
+    cfg = {'dialect': d}
+    st_, r = _parse(sql, d)
+    if st_ == 'crash':
+        col.excluded('internal-error (C02)')
+        return []
+    classes = ['decode', 'decode:dbl', 'dialect:' + d, 'dbl:' + _QTAG[q][2:], 'dctx:' + ctx]
+    out = []
+    if st_ == 'rejected':
+        classes.append('rejected')
+    else:
+        classes += ['accepted', 'dbl-accepted:' + _QTAG[q][2:]]
+        feats = ['doubled-delimiter', _QTAG[q]]
+        try:
+            node = get(r)
+        except Exception:
+            node = None
+        if name_pos:
+            obs = node.parts[0] if _cls(node) == 'Identifier' and len(node.parts) == 1 and isinstance(node.parts[0], str) else None
+        else:
+            obs = node.value if _cls(node) == 'Constant' and isinstance(node.value, str) else None
+        extra = getattr(node, 'alias', None) is not None or \
+            (ctx in ('select', 'select-from', 'p:target') and len(getattr(r, 'targets', None) or []) != 1)
+        if obs != value or extra:
+            head = ''.join(units[:units.index(q + q)])
+            if obs is None:
+                feats.append('diff:other-node')
+            elif obs == head:
+                feats.append('diff:cut-at-doubled-delimiter')
+            elif obs == ''.join(units):
+                feats.append('diff:doubled-kept')
+            elif obs == value:
+                feats.append('diff:value-then-alias')
+            else:
+                feats.append('diff:other')
+            shown = _cls(node) if obs is None else _short(obs)
+            al = getattr(node, 'alias', None)
+            out.append(findings.record('decode-path' if name_pos else 'decode-value',
+                                       'Identifier.parts' if name_pos else 'Constant.value', feats, cfg,
+                                       f'{"name" if name_pos else "literal"} {_short(lit)} denotes {_short(value)}; tree holds '
+                                       f'{shown}{" with alias " + str(getattr(al, "parts", al)) if al is not None else ""}', sql))
+    col.case(('ddbl', d, sql), st_ == 'ok', classes, {'kind': 'decode-doubled-delimiter', 'dialect': d, 'sql': sql,
+                                                     'denotes': value})
     return out
 
 
@@ -558,6 +702,33 @@ def judge_estr(case, col):
 
 # ------------------------------------------------------------------------------------------------ encode: paths
 
+_DBL_PART = re.compile(r'`((?:[^`]|``)+)`|([A-Za-z_$0-9]+)|(\*)')
+
+
+def _read_path_dbl(text):
+    """Reference reader for a printed path whose quoted parts may hold the doubled back-quote: part(.part)*, part =
+    `...` with `` for one back-quote | plain word | *.  -> parts in the shape of reflex.read_whole_path | None."""
+    pos, parts = 0, []
+    while True:
+        m = _DBL_PART.match(text, pos)
+        if not m:
+            return None
+        if m.group(1) is not None:
+            parts.append(('bq', m.group(1).replace('``', '`'), m.group(0)))
+        elif m.group(2) is not None:
+            if m.group(2).isdigit():
+                return None
+            parts.append(('word', m.group(2), m.group(0)))
+        else:
+            parts.append(('star', '*', '*'))
+        pos = m.end()
+        if pos == len(text):
+            return parts
+        if text[pos] != '.' or parts[-1][0] == 'star':
+            return None
+        pos += 1
+
+
 def judge_epath(case, col):
     from mindsdb_sql.parser.ast import Identifier, Star
     d, ctx = case['d'], case['ctx']
@@ -571,8 +742,8 @@ def judge_epath(case, col):
             if i == 0 or i != len(vals) - 1 or ctx != 'target' or d == 'sqlite':
                 col.excluded('encode: star outside the grammar position')
                 return []
-        elif p == '' or '`' in p:
-            col.excluded('encode: identifier part with no spelling (empty or contains a back-quote)')
+        elif p == '':
+            col.excluded('encode: identifier part with no spelling (empty)')
             return []
     parts = [Star() if p is None else p for p in vals]
     feats = []
@@ -597,6 +768,8 @@ def judge_epath(case, col):
             feats.append('p:quote-or-backslash')
     ptags = sorted(set(feats))
     feats = [t for t in ptags if not t.startswith('p:')] or ptags
+    bq = ['p:backquote'] if any(p is not None and '`' in p for p in vals) else []   # spelled with the doubled back-quote
+    feats = bq or feats                      # the mechanism that decides: no escape form for the back-quote
     text, rec = _print(Identifier(parts=list(parts)), cfg, f'Identifier(parts={vals!r})', feats)
     classes = ['encode', 'encode:path', 'dialect:' + d, 'ectx:' + ctx, 'parts:%d' % min(len(vals), 3)]
     out = []
@@ -605,12 +778,12 @@ def judge_epath(case, col):
     else:
         tmpl, get = PATH_CTX[ctx]
         sql = tmpl.format(x=text)
-        ref = reflex.read_whole_path(text, d)
+        ref = _read_path_dbl(text) if bq else reflex.read_whole_path(text, d)
         want = ['*' if p is None else p for p in vals]
         # cause-level tags: keyword-shaped words the printer left unquoted (read off the printed text)
         ukw = sorted({'unquoted-kw:' + reflex.keyword_of(rp[1], d) for rp in (ref or ())
                       if rp[0] == 'word' and reflex.keyword_of(rp[1], d)})
-        feats = ukw or feats
+        feats = bq or ukw or feats
         if ref is None:
             out.append(findings.record('encode-ref', 'Identifier.parts_to_str', feats + ['ref:not-one-path'], cfg,
                                        f'parts {want} print as {_short(text)}: not one identifier path', sql))
@@ -641,7 +814,7 @@ def judge_epath(case, col):
                 got = _parts_repr(obs) if obs is not None else _cls(node)
                 out.append(findings.record('encode-lib', 'Identifier.parts_to_str', feats + ['lib:other-parts'], cfg,
                                            f'parts {want} print as {_short(text)}; parser reads {got}', sql))
-        for t in ptags:
+        for t in ptags + bq:
             classes.append('epart:' + (t.split(':')[0] if t.startswith('kw:') else t))
     nontrivial = rec is None and (len(vals) > 1 or bool(ptags) or _has_special(vals[0] or '*'))
     col.case(('epath', d, ctx, vals), nontrivial, classes, {'kind': 'encode-path', 'dialect': d, 'parts': vals, 'printed': text})
@@ -703,6 +876,56 @@ def judge_enum(case, col):
     return out
 
 
+# ------------------------------------------------------------------------------------------------ encode: Decimal
+
+def judge_edec(case, col):
+    from mindsdb_sql.parser.ast import Constant
+    d, v = case['d'], Decimal(case['v'])
+    cfg = {'dialect': d}
+    if not v.is_finite():
+        col.excluded('encode: inf/nan are not decimals')
+        return []
+    exact = Fraction(v)
+    feats = ['num:decimal']
+    if 'E' in str(v):
+        feats.append('repr:exponent')
+    if v.is_signed():
+        feats.append('neg')
+    text, rec = _print(Constant(v), cfg, f'Constant({v!r})', feats)
+    classes = ['encode', 'encode:dec', 'dialect:' + d] + ['e' + f for f in feats]
+    out = []
+    if rec:
+        out.append(rec)
+    else:
+        sql = 'SELECT ' + text
+        ref = reflex.read_whole_number(text, d)
+        if ref is None:
+            out.append(findings.record('encode-ref', 'Constant.get_string', feats + ['ref:not-one-number'], cfg,
+                                       f'number {v!r} prints as {_short(text)}: not one number token', sql))
+        elif ref[1] != exact:
+            out.append(findings.record('encode-ref', 'Constant.get_string', feats + ['ref:other-value'], cfg,
+                                       f'number {v!r} prints as {_short(text)}', sql))
+        st_, r = _parse(sql, d)
+        if st_ == 'crash':
+            out.append(findings.record('encode-lib', 'Constant.get_string', feats + ['lib:crash:' + site_of(r)], cfg,
+                                       f'number {v!r} prints as {_short(text)}; parser: {type(r).__name__}', sql))
+        elif st_ == 'rejected':
+            if not (ref is not None and ref[0] == 'float' and _beyond_double(ref[1])):   # the reader may refuse what no double holds
+                out.append(findings.record('encode-lib', 'Constant.get_string', feats + ['lib:rejected'], cfg,
+                                           f'number {v!r} prints as {_short(text)}; rejected by the parser', sql))
+        else:
+            node = r.targets[0] if len(getattr(r, 'targets', None) or []) == 1 else None
+            got = _number_of(node) if node is not None else None
+            kind = ref[0] if ref is not None else ('int' if exact.denominator == 1 else 'float')
+            if got is None or not _same_number(got, kind, exact) or getattr(r, 'from_table', None) is not None \
+                    or node.alias is not None:
+                shown = got if got is not None else _cls(node)
+                out.append(findings.record('encode-lib', 'Constant.get_string', feats + ['lib:other-value'], cfg,
+                                           f'number {v!r} prints as {_short(text)}; parser reads {shown!r}', sql))
+    col.case(('edec', d, str(v)), rec is None, classes, {'kind': 'encode-decimal', 'dialect': d, 'value': str(v), 'printed': text})
+    return out
+
+
 # ------------------------------------------------------------------------------------------------ encode: variables
 
 def judge_evar(case, col):
@@ -751,8 +974,8 @@ def judge_evar(case, col):
     return out
 
 
-JUDGES = {'dstr': judge_dstr, 'dpath': judge_dpath, 'dnum': judge_dnum, 'dvar': judge_dvar,
-          'estr': judge_estr, 'epath': judge_epath, 'enum': judge_enum, 'evar': judge_evar}
+JUDGES = {'dstr': judge_dstr, 'dpath': judge_dpath, 'dnum': judge_dnum, 'dvar': judge_dvar, 'ddbl': judge_ddbl,
+          'estr': judge_estr, 'epath': judge_epath, 'enum': judge_enum, 'evar': judge_evar, 'edec': judge_edec}
 
 
 def judge(case, col):
@@ -770,7 +993,11 @@ INT_POOL = ['0', '1', '12', '007']
 EPART_POOL = ['a', 'Ab', 'a b', 'a.b', '1a', '1', '$x', 'x-y', "it's", 'a"b', 'a\\b', 'ünï', 'a\nb', ' ', '.', '*',
               'select', 'Status', 'primary_key', 'PRIMARY KEY', 'group by', 'order', 'first', 'persist_only', 'ml_engine',
               'knowledge_base', 'search_path', 'latest', 'model', 'true', 'null', 'if', 'exists', '@v', '', 'a`b', '1e5',
-              '_', 'x1_', 'nulls', 'by']
+              '_', 'x1_', 'nulls', 'by', '`', '``', 'a`.`b', 'a` `b', '`a`']
+KW_SUFFIX = ['$', '$x']
+DEC_GRID = ['0', '1', '-1', '1.50', '0.1', '-0.1', '1E-7', '-1E-7', '1E+2', '1.5E+30', '0E-10', '-0.000', '1E-30',
+            '123456789.123456789123456789', '12345678901234567890.5', '0.0000001', '1234567E-10', '9007199254740993',
+            '1E+400']
 
 
 def _products(units, maxlen):
@@ -836,15 +1063,37 @@ def exhaustive(tier):
             for a in EPART_POOL:
                 for b in EPART_POOL + [None]:
                     yield 'E5', {'k': 'epath', 'd': d, 'parts': [a, b], 'ctx': 'target'}
+    # E7 texts with a doubled delimiter, every context
+    for d in DIALECTS:
+        for q in ("'", '"', '`'):
+            if d in reflex.ESCAPING and q == "'":
+                continue                                  # E1 has them
+            for u in _products(DBL_UNITS[q], L['dbl']):
+                if q + q in u:
+                    for ctx in dbl_ctxs(d, q):
+                        yield 'E7', {'k': 'ddbl', 'd': d, 'q': q, 'u': u, 'ctx': ctx}
+    # E8 every one-word keyword directly followed by `$`
+    for d in DIALECTS:
+        for w in _KWALL[d]:
+            if ' ' in w:
+                continue
+            for sfx in KW_SUFFIX:
+                for ctx in ('target', 'from', 'where', 'order'):
+                    yield 'E8', {'k': 'dpath', 'd': d, 'parts': [['w', w + sfx]], 'seps': ['.'], 'ctx': ctx}
+            yield 'E8', {'k': 'dpath', 'd': d, 'parts': [['w', 'a'], ['w', w.lower() + '$']], 'seps': ['.'], 'ctx': 'target'}
     # E6 numbers and variables (small fixed grids)
     ints = ['0', '1', '7', '007', '00', '10', '9007199254740993', '12345678901234567890', '1' + '0' * 30, '4294967296']
     floats = ['0.0', '1.5', '1.50', '0.1', '0.00001', '007.50', '123456789.123456789', '0.1234567890123456789',
-              '9007199254740993.0', '1' + '0' * 25 + '.0', '0.000000000000000000001', '1.0', '3.14159']
+              '9007199254740993.0', '1' + '0' * 25 + '.0', '0.000000000000000000001', '1.0', '3.14159',
+              '1' + '0' * 308 + '.0', '2' + '0' * 308 + '.0', '9' * 400 + '.5']
     for d in DIALECTS:
         for ctx in sorted(LIT_CTX):
             for neg in (0, 1, 2):
                 for t in ints + floats + ([] if d == 'mindsdb' else ['1.', '10.', '007.']):
                     yield 'E6', {'k': 'dnum', 'd': d, 't': t, 'neg': neg, 'ctx': ctx}
+    for d in DIALECTS:
+        for v in DEC_GRID:
+            yield 'E6', {'k': 'edec', 'd': d, 'v': v}
     evals = [0, 1, -1, 7, 10 ** 15, 2 ** 53 + 1, -(2 ** 63), 10 ** 30, 0.0, -0.0, 1.5, -1.5, 0.1, 1e-05, 1e16, 1.5e300, 5e-324,
              123456789.12345679, 1e15, 0.0001, 1e22, -2.5e-10, 3.0]
     for d in DIALECTS:
@@ -899,7 +1148,7 @@ def _path_parts(draw, d, ctx):
     n = draw(st.integers(1, 4))
     parts = []
     for i in range(n):
-        styles = ['w', 'w', 'bq', 'kw']
+        styles = ['w', 'w', 'bq', 'kw', 'kw$']
         if d in reflex.DQ_IDENT:
             styles.append('dq')
         if d in reflex.INT_PART and i > 0:
@@ -917,6 +1166,9 @@ def _path_parts(draw, d, ctx):
             parts.append(['w', draw(st.sampled_from(_KWID[d]))])
             if draw(st.booleans()):
                 parts[-1][1] = parts[-1][1].lower().capitalize()
+        elif s == 'kw$':
+            parts.append(['w', draw(st.sampled_from([w for w in _KWALL[d] if ' ' not in w])) +
+                          draw(st.sampled_from(['$', '$x', '$1', '$$', '$_a']))])
         elif s == 'bq':
             v = draw(st.one_of(st.sampled_from(BQ_POOL),
                                st.text(st.one_of(_HOSTILE, _PLAIN).filter(lambda c: c != '`'), min_size=1, max_size=8)))
@@ -937,9 +1189,22 @@ def _path_parts(draw, d, ctx):
 
 @st.composite
 def cases(draw):
-    k = draw(st.sampled_from(['dstr', 'dstr', 'dstr', 'dpath', 'dpath', 'dnum', 'dvar',
-                              'estr', 'estr', 'estr', 'epath', 'epath', 'enum', 'evar']))
+    k = draw(st.sampled_from(['dstr', 'dstr', 'dstr', 'dpath', 'dpath', 'dnum', 'dvar', 'ddbl',
+                              'estr', 'estr', 'estr', 'epath', 'epath', 'enum', 'evar', 'edec']))
     d = draw(st.sampled_from(DIALECTS))
+    if k == 'ddbl':
+        q = draw(st.sampled_from(['"', '`'] if d in reflex.ESCAPING else ["'", '"', '`']))
+        plain = st.one_of(_HOSTILE, _PLAIN).filter(lambda c: c != q and c != '\\')
+        u = draw(st.lists(st.one_of(st.just(q + q), st.sampled_from(DBL_UNITS[q]), plain), min_size=1, max_size=8))
+        if q + q not in u:
+            u.insert(draw(st.integers(0, len(u))), q + q)
+        return {'k': k, 'd': d, 'q': q, 'u': u, 'ctx': draw(st.sampled_from(dbl_ctxs(d, q)))}
+    if k == 'edec':
+        v = draw(st.one_of(st.sampled_from(DEC_GRID),
+                           st.decimals(allow_nan=False, allow_infinity=False),
+                           st.decimals(min_value=-10 ** 6, max_value=10 ** 6, places=draw(st.integers(0, 12))),
+                           st.builds(lambda m, e: Decimal(m).scaleb(e), st.integers(-99999, 99999), st.integers(-40, 40))))
+        return {'k': k, 'd': d, 'v': str(v)}
     if k == 'dstr':
         q = draw(st.sampled_from(["'", '"']))
         return {'k': k, 'd': d, 'q': q, 'u': draw(_lit_units(d, q)), 'ctx': draw(st.sampled_from(sorted(LIT_CTX)))}
@@ -1014,5 +1279,9 @@ def run_shard(col, k, nshards, tier, seed):
             f"parts also every keyword the grammar takes as a name) x 3 dialects",
             'E5 every keyword word of the three lexers (both cases) and the hostile part pool as Identifier parts '
             '(1 part x {target, from}; 2 parts) x 3 dialects',
-            'E6 number / variable grids (decode x 6 contexts x sign spellings; encode)'])
+            'E6 number / variable / Decimal grids (decode x 6 contexts x sign spellings; encode)',
+            f"E7 all texts of <= {L['dbl']} units over {DBL_UNITS[chr(34)]!r} (and the ' / ` analogues) that hold the doubled "
+            f"delimiter, in every literal / name context x 3 dialects",
+            'E8 every one-word keyword of the three lexers directly followed by $ / $x as a plain name '
+            '(x {target, from, where, order}; after a dot)'])
     hyp.explore(col, cases(), judge, N[tier], seed)
